@@ -13,3 +13,7 @@ mod sync;
 pub(crate) use iouring::File;
 #[cfg(feature = "async-io-rio")]
 pub use iouring::IoDriver;
+
+/// Verification I/O tap and failpoints, compiled only with `--cfg pearl_verif`
+#[cfg(pearl_verif)]
+pub mod verif_io;
